@@ -4,6 +4,7 @@ Monitor: `.motif_sizes` and `.jdd` of the cover loader read back (direct and dis
 the downstream pipeline loader -> sample_jds_from_jdd -> GCMAlgorithmFast(clique motifs) observed
 through recording build callbacks.  Oracle: recount from the cover.
 """
+import numbers
 import random
 from collections import Counter
 from itertools import combinations
@@ -174,7 +175,7 @@ def check_cover(res, cover, rng, path):
             if len(jds) != n_s:
                 res.violate("pipeline-sample-length", got=len(jds), want=n_s); return False
             for jd in jds:
-                if not (isinstance(jd, tuple) and len(jd) == len(sizes) and all(isinstance(x, int) and x >= 0 for x in jd)):
+                if not (isinstance(jd, tuple) and len(jd) == len(sizes) and all(isinstance(x, numbers.Integral) and not isinstance(x, bool) and x >= 0 for x in jd)):
                     res.violate("pipeline-sample-entry-malformed", entry=repr(jd), cover=cover); return False
             col = [sum(jd[i] for jd in jds) for i in range(len(sizes))]
             for i, s in enumerate(sizes):
